@@ -1,6 +1,7 @@
 package yqlib
 
 import (
+	"bufio"
 	"encoding/xml"
 	"io"
 	"strings"
@@ -418,4 +419,65 @@ func VerifC11ParamOps() {
 		_, _ = vEval(tree, c11Doc(5, "1"))
 	}
 	verifCover("C11/params/parsed")
+}
+
+// VerifC11Encoders: every output format, with its preference flags chosen by the solver, applied to results of every
+// small shape — empty keys, empty strings, nulls, empty and nested collections, scalars at the root — gives output or
+// an error, never a crash.
+func VerifC11Encoders() {
+	k := verifStr("k", 1, "az__09")
+	v := verifStr("v", 1, "az  ")
+	var n *yaml.Node
+	switch verifChoice("shape", 10) {
+	case 0:
+		n = vMap(vStr(k), vStr(v))
+	case 1:
+		n = vMap(vStr(k), vMap(vStr(""), vStr(v)))
+	case 2:
+		n = vMap(vStr(k), vSeq(vStr(v), vNull(), vMap()))
+	case 3:
+		n = vSeq(vMap(vStr(k), vStr(v)), vMap(vStr(""), vNull()))
+	case 4:
+		n = vStr(v)
+	case 5:
+		n = vNull()
+	case 6:
+		n = vSeq()
+	case 7:
+		n = vMap()
+	case 8:
+		n = vSeq(vSeq(vStr(v), vStr(k)), vSeq())
+	default:
+		n = vMap(vInt("1"), vStr(v), vS("!!bool", "true"), vSeq(vStr(k)), vNull(), vStr("x"))
+	}
+	var enc Encoder
+	switch verifChoice("format", 8) {
+	case 0:
+		enc = NewLuaEncoder(LuaPreferences{DocPrefix: "return ", DocSuffix: ";\n", UnquotedKeys: verifBool("unquoted"), Globals: verifBool("globals")})
+	case 1:
+		enc = NewPropertiesEncoder(PropertiesPreferences{UnwrapScalar: verifBool("unwrap"), KeyValueSeparator: " = ", UseArrayBrackets: verifBool("brackets")})
+	case 2:
+		enc = NewShellVariablesEncoder()
+	case 3:
+		enc = NewCsvEncoder(ConfiguredCsvPreferences)
+	case 4:
+		enc = NewCsvEncoder(ConfiguredTsvPreferences)
+	case 5:
+		prefs := NewDefaultXmlPreferences()
+		prefs.Indent = verifChoice("indent", 2) * 2
+		enc = NewXMLEncoder(prefs)
+	case 6:
+		enc = NewTomlEncoder()
+	default:
+		enc = NewUriEncoder() // (base64 runs in a native library on concrete text only: C14)
+	}
+	var sb strings.Builder
+	w := bufio.NewWriter(c17Writer{&sb})
+	printer := NewPrinter(enc, NewSinglePrinterWriter(w))
+	if err := printer.PrintResults(vDoc(n).AsList()); err != nil {
+		verifCover("C11/encoders/error")
+	} else {
+		verifCover("C11/encoders/output")
+	}
+	verifCover("C11/encoders/end")
 }
